@@ -129,11 +129,14 @@ pub struct ContCase {
     pub d6: f64,
     /// previous = CONSTRAINT_CENTERED on a robot whose constraint centres are the perturbed vector
     pub centred: bool,
+    /// explicit previous on a robot with limits whose answers are ordered by the limit centres alone (weight 1); the
+    /// centres differ from the previous vector in J4 and J6
+    pub weighted: bool,
 }
 
 impl ContCase {
     fn json(&self) -> Value {
-        json!({"kind": "continuity", "params": params_json(&self.params), "q": nums(&self.q), "d4": self.d4, "d6": self.d6, "centred": self.centred})
+        json!({"kind": "continuity", "params": params_json(&self.params), "q": nums(&self.q), "d4": self.d4, "d6": self.d6, "centred": self.centred, "weighted": self.weighted})
     }
 }
 
@@ -157,18 +160,23 @@ pub fn eval_cont(c: &ContCase) -> Result<(Vec<(String, String)>, String), &'stat
     // limits are +-2.5 rad windows around it, so every answer within reach of the redistribution is admitted
     let stack = if c.centred {
         StackDesc::bare(*p).limited(Limits { from: prev.map(|x| x - 2.5), to: prev.map(|x| x + 2.5), weight: 1.0 })
+    } else if c.weighted {
+        let mut mid = prev;
+        mid[3] += 0.4;
+        mid[5] -= 0.15;
+        StackDesc::bare(*p).limited(Limits { from: mid.map(|x| x - 2.5), to: mid.map(|x| x + 2.5), weight: 1.0 })
     } else {
         StackDesc::bare(*p)
     };
     let k = stack.build();
-    let tag = format!("{}{}", conv_tag(p), if c.centred { "/centred" } else { "" });
+    let tag = format!("{}{}{}", conv_tag(p), if c.centred { "/centred" } else { "" }, if c.weighted { "/sorted-by-limit-centres" } else { "" });
     let given = if c.centred { CONSTRAINT_CENTERED } else { prev };
     let sols = match call(k.as_ref(), Entry::Continuing, &pose, &given, 0.0) {
         Ok(s) => s,
         Err(m) => return Ok((vec![(format!("C05/continuity/panic/{tag}"), m)], "panic".into())),
     };
     let (s4, s6) = (p.sign_corrections[3] as f64, p.sign_corrections[5] as f64);
-    if c.d4 == 0.0 && c.d6 == 0.0 && !c.centred {
+    if c.d4 == 0.0 && c.d6 == 0.0 && !c.centred && !c.weighted {
         let ok = sols.first().map_or(false, |f| (0..6).all(|i| (f[i] - c.q[i]).abs() <= 2e-6));
         if !ok {
             fails.push((
@@ -288,7 +296,7 @@ pub fn run(ctx: &Ctx) -> Report {
         let th = [ax[0][ix[1]], ax[1][ix[2]], ax[2][ix[3]], ax[3][ix[4]], 0.0, ax[4][ix[5]]];
         let q = user_joints(p, &th);
         let (d4, d6) = perturb[ix[6] % perturb.len()];
-        let c = ContCase { params: *p, q, d4, d6, centred: ix[6] >= perturb.len() };
+        let c = ContCase { params: *p, q, d4, d6, centred: ix[6] >= perturb.len(), weighted: false };
         match eval_cont(&c) {
             Err(_) => r.skipped_precondition += 1,
             Ok((fails, sig)) => {
@@ -311,7 +319,7 @@ pub fn run(ctx: &Ctx) -> Report {
         let h = PI / 2.0;
         let aax: [Vec<f64>; 5] = [vec![0.0, h, -h, PI], vec![0.0, h, -h], vec![0.0, h, -h, PI], vec![0.0, 1.1, -2.0, 3.0, -0.4], vec![0.0, 2.5, -1.2, 0.7, -2.9]];
         let arobots: Vec<Parameters> = crobots.iter().step_by(if thorough { 2 } else { 5 }).cloned().chain(presets().into_iter().map(|(_, p)| p)).collect();
-        let asizes: Vec<usize> = std::iter::once(arobots.len()).chain(aax.iter().map(|a| a.len())).chain(std::iter::once(3)).collect();
+        let asizes: Vec<usize> = std::iter::once(arobots.len()).chain(aax.iter().map(|a| a.len())).chain(std::iter::once(5)).collect();
         let an = par::product(&asizes);
         let arep = par::run(an, |idx, r| {
             let mut ix = [0usize; 7];
@@ -319,8 +327,8 @@ pub fn run(ctx: &Ctx) -> Report {
             let p = &arobots[ix[0]];
             let th = [aax[0][ix[1]], aax[1][ix[2]], aax[2][ix[3]], aax[3][ix[4]], 0.0, aax[4][ix[5]]];
             let q = user_joints(p, &th);
-            let (d4, d6, centred) = [(0.0, 0.0, false), (0.3, -0.3, false), (0.0, 0.0, true)][ix[6]];
-            let c = ContCase { params: *p, q, d4, d6, centred };
+            let (d4, d6, centred, weighted) = [(0.0, 0.0, false, false), (0.3, -0.3, false, false), (0.0, 0.0, true, false), (0.0, 0.0, false, true), (0.3, -0.3, false, true)][ix[6]];
+            let c = ContCase { params: *p, q, d4, d6, centred, weighted };
             match eval_cont(&c) {
                 Err(_) => r.skipped_precondition += 1,
                 Ok((fails, sig)) => {
@@ -372,6 +380,7 @@ pub fn replay(case: &Value) -> Vec<String> {
         d4: as_num(&case["d4"]),
         d6: as_num(&case["d6"]),
         centred: case["centred"].as_bool().unwrap_or(false),
+        weighted: case["weighted"].as_bool().unwrap_or(false),
     };
     match eval_cont(&c) {
         Ok((f, _)) => f.into_iter().map(|(k, d)| format!("{k}: {d}")).collect(),
